@@ -2,7 +2,7 @@
    What is proved: every piece of hclrs-authored code around the LALRPOP automaton is total in
    the model - the Rust code's panics (unwrap, assert, slicing, arithmetic) are explicit error
    values of the model, and the theorems say they are unreachable. *)
-From HclV Require Diag DiagSpec DiagProofs.
+From HclV Require Diag DiagSpec DiagProofs FullDiagSpec FullDiagProofs.
 From HclV Require Import Base Yo Region RegionSpec RegionProofs Graph GraphSpec GraphProofs
                          Expr ExprRules ExprRulesProofs YoSpec YoProofs
                          Machine Build BuildSpec Lexer Parser LexParseSpec Generated FrontTotalSpec FrontTotalProofs.
@@ -160,3 +160,27 @@ Proof.
   split; [exact DiagProofs.no_internal_error_text_holds | exact DiagProofs.internal_error_text_present_holds].
 Qed.
 Print Assumptions C13_rendered_text_shape.
+
+(* ---- the complete text on standard error, computed from the program text alone (FullDiag*.v):
+   lexer error / grammar diagnostics / builder and checker diagnostics with ALL their fields
+   (widths, hints, component names, input lists), rendered by the model of format_for_contents -- *)
+(* every error the model front end produces - on any statement list - is renderable (in
+   particular a mux width error carries exactly one width per option: the invariant the renderer
+   relies on), so producing the diagnostics never fails; with the compiled component table no
+   internal error value is ever produced and a rejection has at least one diagnostic *)
+Theorem C13_every_produced_diagnostic_renders :
+  FullDiagSpec.stmt_full_errors_renderable /\ FullDiagSpec.stmt_mux_widths_complete /\
+  FullDiagSpec.stmt_front_stderr_total /\ FullDiagSpec.stmt_full_no_internal_gen.
+Proof.
+  split; [exact FullDiagProofs.full_errors_renderable_holds |].
+  split; [exact FullDiagProofs.mux_widths_complete_holds |].
+  split; [exact FullDiagProofs.front_stderr_total_holds | exact FullDiagProofs.full_no_internal_gen_holds].
+Qed.
+Print Assumptions C13_every_produced_diagnostic_renders.
+(* accepted: nothing is written; rejected: a non-empty text, one block per error in order, each
+   starting with "error: " and ending with a line feed; and the text is empty exactly when lexer,
+   parser and builder accept *)
+Theorem C13_standard_error_text_shape :
+  FullDiagSpec.stmt_front_stderr_blocks /\ FullDiagSpec.stmt_front_errors_accepts.
+Proof. split; [exact FullDiagProofs.front_stderr_blocks_holds | exact FullDiagProofs.front_errors_accepts_holds]. Qed.
+Print Assumptions C13_standard_error_text_shape.
